@@ -407,6 +407,18 @@ theorem parse_eval_agree_partial (E : Env) (t : String) (syn : Syn) (hp : parseT
   obtain ⟨b, h1, h2⟩ := compact_agree_spec E syn m hm hc ha
   exact ⟨m, b, hm, (compact_agree E syn m hm hc).1, h1, h2⟩
 
+/-- **coherence at full strength** (also wanted by C18): every marker `_compact_markers` builds is coherent — each
+`SingleMarker` holds the constraint its own name/operator/value/operand order denote, so that `__eq__`
+(which ignores the constraint object) never identifies leaves that validate differently.  Open in general: it
+needs the parsers' insensitivity to the white space `_CONSTRAINT_RE_PATTERN_1` drops between operator and
+value (`"== x"` vs `"==x"`).  Proved for every tree over proved leaf shapes (`marker_coherent_partial`). -/
+def marker_coherent_full_statement : Prop :=
+  ∀ (syn : Syn) (m : M), compactRaw syn = .ok m → m.Coherent = true
+
+theorem marker_coherent_partial (E : Env) (syn : Syn) (m : M) (h : compactRaw syn = .ok m)
+    (hd : SynInDomain E syn) : m.Coherent = true :=
+  (compact_agree E syn m h (syn_inDomain E syn hd).2).1
+
 mutual
 def AtomInFullDomain (E : Env) : Atom → Prop
   | .item n op v sw => DomainLeaf E n op v sw
@@ -439,6 +451,10 @@ theorem exSyn_inDomain : SynInDomain exEnv exSyn := by
 example : ∃ m b, compactRaw exSyn = .ok m ∧ m.Coherent = true ∧ M.validate exEnv m = .ok b ∧
     evalSyn exEnv exSyn = some b :=
   parse_eval_agree_partial exEnv _ exSyn exSyn_parsed exSyn_inDomain
+
+example : ∃ m, compactRaw exSyn = .ok m ∧ SynInDomain exEnv exSyn :=
+  let ⟨m, _, h, _⟩ := parse_eval_agree_partial exEnv _ exSyn exSyn_parsed exSyn_inDomain
+  ⟨m, h, exSyn_inDomain⟩
 
 example : exSyn.coh = true ∧ exSyn.agree exEnv := ⟨(syn_inDomain _ _ exSyn_inDomain).2, (syn_inDomain _ _ exSyn_inDomain).1⟩
 
